@@ -24,6 +24,7 @@ def run(ctx):
     stream.interrupted_safe_fill(ctx, P)
     stream.partial_buffer_verdicts(ctx, P)
     stream.zero_means_end(ctx, P)
+    stream.eof_kind_protocol(ctx, P)
     stream.no_multi_octet_match_on_transient_slice(ctx, P)
     from rules import c14
     c14.hasher_rules(ctx, P)
